@@ -22,6 +22,14 @@ def M(id_, file, old, new, props):
 
 
 MUTANTS = [
+    M('transform-directions-swapped', B, "        if not inverse:\n            return np.einsum('ij, ...j', self.B_inv, points - self.c)",
+      "        if inverse:\n            return np.einsum('ij, ...j', self.B_inv, points - self.c)", 'C08 C07'),
+    M('volume-n-over-log-two', B, "self.n_dim * np.log(2.) +", "self.n_dim / np.log(2.) +", 'C08'),
+    M('contains-sums-over-points', B, "return np.sum(self.transform(points)**2, axis=-1) < 1",
+      "return np.sum(self.transform(points)**2, axis=0) < 1", 'C08 C07'),
+    M('inverse-transform-subtracts-centre', B,
+      "            return np.einsum('ij, ...j', self.B, points) + self.c",
+      "            return np.einsum('ij, ...j', self.B, points) - self.c", 'C08 C07'),
     M('probed-restore-inverted', N, "'neural_bound_{}'.format(i) in group",
       "'neural_bound_{}'.format(i) not in group", 'C09'),
     M('probed-restore-step-two', N, "                rng=bound.rng))\n            i += 1",
